@@ -4,6 +4,7 @@ import CelmaVerif.Lemmas.FixedStringC11DevStep
 import CelmaVerif.Lemmas.FixedStringC11DevNul
 import CelmaVerif.Lemmas.FixedStringC11DevIt
 import CelmaVerif.Lemmas.FixedStringC11DevStd
+import CelmaVerif.Model.FixedStringAlias
 /-
   C11 — a fixed-capacity string equals `std::string` cut off at the capacity.
   Property theorems only (helper lemmas: Lemmas/FixedStringC11*.lean).
@@ -44,6 +45,44 @@ theorem C11_after_history (c cu : Cfg) (hc : CfgOK c) (hcu : CfgOK cu) (ops : Li
       ∀ op, ArgsOK c w op → inDomain (npos c) w op = true → C11Holds c cu w op := by
   obtain ⟨w, h1, h2⟩ := run_wf hc hcu ops _ (init_wf c cu) hh
   exact ⟨w, h1, fun op ha hd => c11_step hc h2 op ha hd⟩
+
+/-! ### self-aliasing sources (`s.insert( 1, s, 2, 1)`, `s.replace( 0, 2, s.c_str() + 1)`, …) -/
+
+/-- the aliased world of a well-formed world is well-formed (the argument object holds a copy of `s`) -/
+theorem C11_aliased_wf (c cu : Cfg) (w : World) (hw : WFW c cu w) : WFW c cu w.aliased :=
+  ⟨hw.1, hw.1, hw.2.2⟩
+
+/-- C11 for an operation whose `FixedString` / iterator-pair argument is the object itself (`stepAliased`, what
+    the driver runs for a protocol line with the prefix `alias`): `std::string` is defined, and the text afterwards
+    is the `std::string` result of the same operation applied to THE VALUE OF THE PRE-STATE (`spec` on
+    `w.aliased`, whose argument object is a copy of `s`), cut off at the capacity; the returned value agrees; the
+    real `t` is untouched.  Instance of `C11_step` at the aliased world — the content is the definition of
+    `stepAliased`/`World.aliased` (value semantics, as `std::string` specifies aliasing arguments); that the REAL
+    code behaves like this is not proved here but checked by the correspondence run (it does since the `fix:`
+    commit that copies an aliasing source; before, `alias insert_ific 1 t 2 1` on "abc" gave "abbc"). -/
+theorem C11_aliased_step (c cu : Cfg) (hc : CfgOK c) (w : World) (hw : WFW c cu w) (op : Op)
+    (ha : ArgsOK c w.aliased op) (hd : inDomain (npos c) w.aliased op = true) :
+    ∀ w' o, stepAliased c cu w op = .ok (w', o) →
+      ∃ t o', spec id (npos c) w.aliased op = .ok (t, o') ∧ abs w'.s = t.take c.L ∧ (CmpOut op → o = o') ∧
+        w'.t = w.t := by
+  intro w' o h
+  unfold stepAliased at h
+  cases hs : step c cu w.aliased op with
+  | ok p =>
+    obtain ⟨w1, o1⟩ := p
+    rw [hs] at h
+    simp only [Res.ok.injEq, Prod.mk.injEq] at h
+    obtain ⟨hw1, ho1⟩ := h
+    obtain ⟨t, o', h1, h2, h3⟩ := C11_step c cu hc w.aliased (C11_aliased_wf c cu w hw) op ha hd w1 o1 hs
+    subst hw1; subst ho1
+    exact ⟨t, o', h1, h2, h3, rfl⟩
+  | throw e => rw [hs] at h; cases h
+  | oob wh => rw [hs] at h; cases h
+
+/-- a `const char*` into the own buffer (`c_str() + k`, protocol token `self:<k>`) is, for the model, the pointer
+    argument holding the text from position `k` and the terminator — by definition (`rfl`); the operation is then
+    the ordinary pointer operation and `C11_step` applies to it unchanged. -/
+theorem C11_self_pointer_value (s : FStr) (k : Nat) : selfPtr s k = (abs s).drop k ++ [0] := rfl
 
 /-! ### modifying operations: content = std::string result cut at the capacity -/
 
